@@ -458,6 +458,9 @@ def run_many(mod, ctx, spec):
             print(json.dumps({"key": [b, i], "skipped": True}))
             continue
         res = _execute(mod, ctx, h)
+        if os.environ.get("VERIF_DEBUG_EVENTS"):
+            print("history: " + json.dumps(h, default=str)[:4000], file=sys.stderr)
+            print("events: " + json.dumps(res.get("events"), default=str)[:8000], file=sys.stderr)
         print(
             json.dumps(
                 {
